@@ -219,6 +219,9 @@ type Func struct {
 	// NoRef: only the pipeline stages are judged for this function (its construct has no
 	// value defined by spec.md), never a returned value.
 	NoRef bool `json:"no_ref,omitempty"`
+	// Hints: per parameter, values its selector conditions distinguish (generator aid for
+	// argument selection only; no semantic content).
+	Hints map[string][]Value `json:"-"`
 }
 
 type Prog struct {
